@@ -172,7 +172,13 @@ class FileCache:
             raise MemoryError(f"requested file update larger than max_memory: {file_name} {claim} {self.max_memory}")
         with self.file_futures_lock:
             info = self.file_futures.get(file_name)
-            if info is None or not info[0]:
+            if info is not None and not info[0] and not info[-1].done():
+                # the entry belongs to a load that is still in flight: its size is not part of
+                # current_memory_usage yet and its task will store into this entry, so it must not be
+                # unloaded or replaced now. Wait for it outside the lock, then look again.
+                future = info[-1]
+                write_applied = None
+            elif info is None or not info[0]:
                 self._unload_file(file_name)
                 future = self.executor.submit(self._write_file, file_name, new_file_contents, use_fsync)
                 self.file_futures[file_name] = (True, claim, future)
@@ -181,6 +187,9 @@ class FileCache:
                 assert info[0]
                 future = info[-1]
                 write_applied = False
+        if write_applied is None:
+            future.exception()
+            return self.update_file(file_name, new_file_contents, use_fsync)
         future.result()
         return write_applied
 
@@ -211,6 +220,11 @@ class FileCache:
         None
         """
         with self.file_futures_lock:
+            info = self.file_futures.get(file_name)
+            if info is not None and not info[-1].done():
+                # a load or write of this file is in flight: nothing of it is accounted yet and its
+                # task still needs the entry, so there is nothing to unload
+                return
             self.file_access_times = [(t, fn) for t, fn in self.file_access_times if fn != file_name]
             heapq.heapify(self.file_access_times)
             self._unload_file(file_name)
